@@ -59,7 +59,20 @@ def fold_op(proj, cell, weights="opaque", below_threshold=False, prepare=None):
         if prepare is not None:
             prepare(ev, runner)
         o, elems = R.esf_of(ev, runner, cell.obs)
-        res = R.fold_point_result(ev, elems[0])
+        if cell.points:
+            # explicit points: evaluated one after the other as the runner would (whatever an earlier point leaves behind is there), the
+            # request being the element whose kinematics are the last listed point
+            want = cell.points[-1]
+            target = None
+            for e_ in elems:
+                r_ = R.fold_point_result(ev, e_)
+                if all(S.num_norm(r_.attrs.get(k)) == S.num_norm(v) for k, v in want.items() if k in ("x", "Q2", "y")):
+                    target = r_
+            if target is None:
+                raise Undecided("the requested point is not among the results")
+            res = target
+        else:
+            res = R.fold_point_result(ev, elems[0])
     except (Undecided, S.Raised) as e:
         raise FoldFailure(sweep.classify_exception(proj, cell, e, t0))
     pids = list(runner.attrs["_output"].store["pids"])
